@@ -33,6 +33,7 @@ import (
 	"net/http"
 	"net/url"
 	"strings"
+	"sync/atomic"
 	"time"
 
 	"github.com/oauth2-proxy/oauth2-proxy/v7/pkg/apis/sessions"
@@ -59,6 +60,9 @@ func c13ReadKinds() []string {
 	}
 	return ks
 }
+
+// c13Wedged: a request of this process never returned (see do); nothing further is explored in it.
+var c13Wedged atomic.Bool
 
 const c13Forever = "not-obtained-forever"
 const c13Hang = "hangs-until-the-client-gives-up"
@@ -557,7 +561,23 @@ func (r *c13Run) do(what string, req *world.Req, useJar bool) *c13Req {
 		// (the request's context is cancellable: a store operation that hangs is ended by the client giving up)
 		ctx, cancel := context.WithCancel(context.Background())
 		r.cancelCur = cancel
-		resp = world.ServeHTTP(r.px.H, hr.WithContext(ctx))
+		// a request that does not come back within 60 s of real time is abandoned: with virtual clocks on one
+		// side and real timers on the other a changed retry loop may never see its deadline — that says
+		// nothing about the property, so the execution is inconclusive and this process explores no further
+		if c13Wedged.Load() {
+			resp = &world.Resp{Status: 599, Header: http.Header{}}
+		} else {
+			ch := make(chan *world.Resp, 1)
+			go func() { ch <- world.ServeHTTP(r.px.H, hr.WithContext(ctx)) }()
+			select {
+			case resp = <-ch:
+			case <-time.After(60 * time.Second):
+				c13Wedged.Store(true)
+				cancel()
+				resp = &world.Resp{Status: 599, Header: http.Header{}}
+				r.res.EnvErr = "INCONCLUSIVE request " + what + " did not return within 60 s of real time"
+			}
+		}
 		r.cancelCur = nil
 		cancel()
 		if useJar {
@@ -684,7 +704,7 @@ func c13Exec(env *c13Env, seed int64, sc c13Scenario, x *explore.Exec) *c13Resul
 	for attempt := 0; ; attempt++ {
 		res := c13Attempt(env, seed, sc, x, tape)
 		res.Retries = attempt
-		if res.EnvErr == "" || attempt >= 5 {
+		if res.EnvErr == "" || attempt >= 5 || c13Wedged.Load() {
 			return res
 		}
 		// the real connection to miniredis or to the upstream failed (busy machine): once more
@@ -964,7 +984,7 @@ var c13Confirmed = map[string]int{}
 func c13Explore(c *Ctx, env *c13Env, sc c13Scenario) {
 	var rootSig string
 	haveRoot := false
-	cfg := explore.Config{MaxCost: sc.Bound, Deadline: c.Deadline}
+	cfg := explore.Config{MaxCost: sc.Bound, Deadline: c.Deadline, Stop: c13Wedged.Load}
 	if sc.Spread {
 		cfg.Shard, cfg.Shards, cfg.ShardDeviations = c.Shard, c.Shards, 2
 	}
@@ -980,6 +1000,11 @@ func c13Explore(c *Ctx, env *c13Env, sc c13Scenario) {
 			return
 		}
 		c.Add("environment_retries", int64(res.Retries))
+		if strings.HasPrefix(res.EnvErr, "INCONCLUSIVE") {
+			c.Inc("executions_given_up_request_never_returned")
+			c.Unstable("%q choices %v: %s", sc.Name, res.Choices, res.EnvErr)
+			return
+		}
 		if res.EnvErr != "" {
 			c.Error("environment: %q choices %v: %s", sc.Name, res.Choices, res.EnvErr)
 			return
